@@ -58,6 +58,11 @@ CHECKS = {
    note="Trusted: Coq kernel, extraction, driver, harness; os.path / os.walk; symlinks, case-insensitive file systems, extension suffixes, egg-links and editable finders are outside the model and never generated; PEP 420 namespace portions count as 'nothing there' (DESIGN reading note); sys.path restoration is C12's model.",
    technique="Coq proof (induction over the name parts / the path, refinement to a declarative resolution spec) + exhaustive differential correspondence on real directory trees + FileFinder oracle search",
    design="5/C17"),
+ 'C12': dict(
+   text="Coq theorems over the model of the process-global brackets (CaptureStdout start/log_part/stop inside `with cap:`, warnings.catch_warnings around the part loop, PythonPathContext enter/exit) with a doctest body being ANY finite sequence of writes and replacements of sys.stdout / warning filters / showwarning: C12_run_restores (after a run stdout, stderr, filter state and showwarning are the originals, for any number of parts doing anything), C12_capture_restores, C12_path_context (sys.path restored exactly for every admissible index when the body leaves it alone), C12_path_recovery (otherwise exactly one occurrence of the temporary entry is removed - the one at the remembered index, else the first; RuntimeError iff gone; IndexError iff shorter - mirrored from the code). Tie to the code: PythonPathContext on 3000/60000 seeded paths x index x 11 body manipulations vs the extracted model; DocTest.run on 7 body flavours x 10 endings (incl. SystemExit/KeyboardInterrupt propagating, ExitTestException, pytest.skip, compile error) x position x on_error with identity checks of sys.stdout/sys.stderr, sys.path, warnings.filters, warnings.showwarning and no running event loop; import_module_from_path and the doctest pre-import on 7 module kinds (incl. modules that rearrange sys.path at import) x index.",
+   note="Trusted: Coq kernel, extraction, driver, harness; H-with (CPython runs __exit__ on every way out of a with body, BaseException included); asyncio.run's loop cleanup and the warnings module are runtime (checked on the implementation only); PythonPathContext indices outside -(len+1)..len are outside the modelled range.",
+   technique="Coq proof (bracket discipline by induction over parts and operations; list insert/pop algebra) + differential correspondence + before/after identity search on the implementation",
+   design="5/C12"),
 }
 
 NOT_APPLICABLE = {}
